@@ -154,6 +154,16 @@ func OracleC05(ex *Exec) *Obs {
 					expected = append(expected, r.NewEtx)
 				}
 			}
+			// lockup precompile: the value comes out of the ledger entry the call names
+			if r.LedgerBefore != nil && r.LedgerAfter != nil && newEtx == 1 {
+				taken := new(big.Int).Sub(r.LedgerBefore, r.LedgerAfter)
+				if taken.Cmp(r.NewEtx.Value()) != 0 {
+					o.bad("ledger-debit-differs-from-etx-value:"+k, "%s success: ledger entry went %s -> %s, ETX carries %s", k, r.LedgerBefore, r.LedgerAfter, r.NewEtx.Value())
+				}
+				if k == "LOCKUP-CLAIM" && r.LedgerAfter.Sign() != 0 {
+					o.bad("claimed-record-not-removed", "claim success but the record still holds %s", r.LedgerAfter)
+				}
+			}
 			if debit.Cmp(wantDebit) != 0 {
 				// before SelfDestructRefundForkBlock the fee arithmetic is unchecked 256-bit: say so in the signature
 				why := "other"
@@ -171,6 +181,9 @@ func OracleC05(ex *Exec) *Obs {
 			o.class(k + ":failure:" + branch + ":" + reg)
 			if newEtx != 0 {
 				o.bad("failure-with-etx:"+k+":"+branch, "%s reported failure but %d ETX recorded", k, newEtx)
+			}
+			if r.LedgerBefore != nil && r.LedgerAfter != nil && r.LedgerBefore.Cmp(r.LedgerAfter) != 0 {
+				o.bad("ledger-debit-without-etx:"+k, "%s reported failure but the ledger entry went %s -> %s", k, r.LedgerBefore, r.LedgerAfter)
 			}
 			if debit.Sign() != 0 {
 				o.bad("debit-without-etx:"+k+":"+postDebitBranch(ex, r, k), "%s reported failure (status 0) at pc %d but the contract was debited %s and no ETX exists", k, r.PC, debit)
